@@ -327,7 +327,7 @@ func importNud(p *parser, t *token) *token {
 func commaLed(p *parser, t *token, left *token) *token {
 	t.Append(left)
 	for {
-		t.Append(p.Expression(commaBP))
+		t.Append(p.Expression(commaBP, p.mask...))
 		if p.Token.Symbol != "," {
 			break
 		}
